@@ -1,6 +1,7 @@
 import FxVerif.Proofs.C06
 import FxVerif.Proofs.C05Sorted
 import FxVerif.Proofs.C05Ext
+import FxVerif.Proofs.C05Orig
 /-!
 # C05 — every outgoing transfer is in exactly one place and is settled exactly once
 
@@ -385,6 +386,42 @@ theorem observed_execution_settles (s0 : State) (h0 : IsInit s0) (ops : List Op)
   | executed => rfl
   | refunded =>
     exact (executed_never_refunded s0 h0 _ _ e hmem he rfl hc hid.symm rfl hhow).elim
+
+/-- `queued_is_supplied`, over histories: after every operation list, every transfer waiting in the pool or inside a
+batch is, field for field (id, sender, destination, token, amount), a transfer of the creation log `sent` — the log gets
+exactly the sender's input on a successful `SendToExternal` and nothing else — and its fee is the original fee plus
+exactly the fee increases that succeeded for that id; ids in the creation log are unique; every stored batch / outgoing
+bridge call is, unchanged, the record that was created (timeout, fee receiver, transfers / tokens, target, data, memo). -/
+theorem queued_is_supplied_always (s0 : State) (h0 : IsInit s0) (ops : List Op) :
+    let s := run s0 ops
+    let x := (runExt s0 {} ops).2
+    (∀ tx ∈ s.pool ++ s.batches.flatMap (·.txs), ∃ o ∈ x.sent, o.id = tx.id ∧ o.sender = tx.sender ∧ o.dest = tx.dest ∧
+      o.token = tx.token ∧ o.amount = tx.amount ∧ tx.fee = o.fee + raisedSum x.raised tx.id) ∧
+    (x.sent.map (·.id)).Nodup ∧ (∀ b ∈ s.batches, b ∈ x.created) ∧ (∀ c ∈ s.calls, c ∈ x.createdCalls) := by
+  have hq := QI_run (Q_init h0) (inv_init h0) ops
+  have hn := N_run (N_init h0) ops
+  rw [runExt_fst] at hq hn
+  simp only
+  exact ⟨hq.queued, by rw [hq.sentIds]; exact nodup_range', hn.sub, hn.csub⟩
+
+/-- `refund_exact`, over histories: after every operation list, every refund of a transfer in the settlement log went to
+the account that created that transfer, in its token, and its amount is the amount plus the original fee plus every fee
+increase paid for that id — everything that was ever paid in for it, once (`settled_once`); every refund of an outgoing
+bridge call went to the refund address of the bridge call that was created under that nonce, with exactly its tokens. -/
+theorem refund_is_what_was_paid (s0 : State) (h0 : IsInit s0) (ops : List Op) :
+    let s := run s0 ops
+    let x := (runExt s0 {} ops).2
+    (∀ e ∈ s.settled, e.isCall = false → e.how = .refunded →
+      ∃ o ∈ x.sent, o.id = e.id ∧ e.to = o.sender ∧ e.coins = [(o.token, o.amount + o.fee + raisedSum x.raised e.id)]) ∧
+    (∀ e ∈ s.settled, e.isCall = true → e.how = .refunded →
+      ∃ c ∈ x.createdCalls, c.nonce = e.id ∧ e.to = c.refund ∧ e.coins = c.tokens) := by
+  have hq := QI_run (Q_init h0) (inv_init h0) ops
+  have hr := RN_run (R_init h0) (N_init h0) ops
+  rw [runExt_fst] at hq hr
+  simp only
+  refine ⟨hq.refunds, fun e he hc hh => ?_⟩
+  obtain ⟨c, hcm, h1, h2⟩ := hr.calls e he hc
+  exact ⟨c, hcm, h1.symm, (h2 hh).1, (h2 hh).2⟩
 
 /-- non-vacuity of the environment hypothesis: an admissible run in which two batches of different tokens are in flight
 and the later one is executed first, then the earlier one -/
